@@ -66,6 +66,12 @@ CLAIMED = {
         "stateful property testing with fault injection and a conservation oracle",
         "DESIGN.md §4 C10",
     ),
+    "C12": (
+        "Model-ledger stateful testing of the real incentive contract (created through the real incentive factory; cw20 or native LP; reward assets native and cw20; creation fee in another native denom, another cw20 or the reward asset itself): generated histories of flow openings with exact / fee-only / short / over-paid / missing funds and default or explicit epochs (incl. > 180), expansions by creator or others, closes by creator / factory owner / stranger, positions, snapshots, epoch advances and claims. The reference ledger outstanding[flow] is built only from transfers the harness observes and must equal funded - claimed read from the contract's raw storage after every step; the fee must reach the collector; balances cover the sum of outstanding; closing pays exactly outstanding to the creator and is refused to strangers.",
+        "Flows are read from raw storage because the Flow/Flows queries trim histories to 100 epochs. Epoch clock = the repository's fee-distributor mock. Reward assets distinct from the LP asset here (LP-asset flows are in C11).",
+        "stateful property testing with an explicit reference ledger built from observed transfers",
+        "DESIGN.md §4 C12",
+    ),
     "C02": (
         "Generated-input search (proptest, 16 deterministic shards) over the whole documented domain [1,2^128)^3 x valid fee triples x decimals, judged against an independent exact 1024-bit reference: gross floor, fee floors, strict bound, totality inside the 128-bit domain, there-and-back with the case's fees and with zero fees, gross monotone in the offer. Exploration, not proof: millions of cases per quick run, hundreds of millions thorough, with boundary constants and extreme-ratio shapes weighted in.",
         "Trusts refmath.rs (bnum integers, self-tested at start-up) and that commands::swap / queries::query_simulation call the hooked compute_swap (cross-checked by C14). A panic is an abort.",
